@@ -261,7 +261,27 @@ def rule_running_sheds_products(ctx):
         raise AnalysisError(f"only {n_raw} raw writers of step.state found")
 
 
+def rule_failed_step_sheds_products(ctx):
+    """R-C11-7: the steps created by a run that ends FAILED are detached at once, not at the next rerun.
+
+    A failed plan may have defined steps before it failed.  They stay attached under a FAILED creator: not
+    dispatchable, but counted, reported and defended as claims until the creator runs again.
+    """
+    mc = ctx.prog.func("step.Step.mark_completed")
+    hits = []
+    for n in ast.walk(mc.node):
+        if isinstance(n, ast.If) and "StepState.FAILED" in ast.unparse(n.test) and any(callee_name(c) == "_detach_created_steps" for st_ in n.body for c in calls_in(st_)):
+            hits.append(n)
+    direct = [c for c in calls_in(mc.node) if callee_name(c) == "_detach_created_steps"]
+    ctx.check(bool(hits) and len(direct) >= 1, mc.fq, "a FAILED completion detaches the steps the run created", "mark_completed no longer detaches the products of a failed run", "if state is FAILED: _detach_created_steps()", where=ctx.where_of(mc))
+    # and only then: a deferred step keeps its products (they may be what it waits for)
+    succ = [n for n in ast.walk(mc.node) if isinstance(n, ast.If) and n.orelse and any(callee_name(c) == "set_state" and c.args and ast.unparse(c.args[0]) == "StepState.SUCCEEDED" for st_ in n.orelse for c in calls_in(st_))]
+    ok = all(not any(callee_name(c) == "_detach_created_steps" for st_ in n.orelse for c in calls_in(st_)) for n in succ) and bool(succ)
+    ctx.check(ok, mc.fq, "a successful completion keeps the created steps", "the success branch detaches what the run created", "no detach on success")
+
+
 RULES = [
+    Rule("R-C11-7", "a failed run sheds the steps it created", rule_failed_step_sheds_products, min_instances=2),
     Rule("R-C11-1", "threshold binding", rule_threshold, min_instances=9),
     Rule("R-C11-2", "read set and flagging of the need recomputation", rule_read_set, min_instances=10),
     Rule("R-C11-3", "one shared regular-output predicate", rule_shared_output_predicate, min_instances=7),
@@ -271,6 +291,7 @@ RULES = [
 ]
 
 MUTANTS = [
+    Mutant("failed-run-keeps-products", "step.py", in_function("Step.mark_completed", replace_once("                self._detach_created_steps()\n", "                pass\n")), ("R-C11-7",)),
     Mutant("running-keeps-old-products", "scheduler.py", in_function("Scheduler.pop_next_job", replace_once("                step.reset_for_rerun()\n", "                pass\n")), ("R-C11-6",)),
     Mutant("running-sheds-after-state", "scheduler.py", in_function("Scheduler.pop_next_job", lambda s: s.replace("            step.set_state(state)\n", "", 1).replace("            if state == StepState.RUNNING:\n", "            step.set_state(state)\n            if state == StepState.RUNNING:\n", 1) if "            if state == StepState.RUNNING:\n" in s else None), ("R-C11-6",)),
     Mutant("checking-sheds-instead", "scheduler.py", in_function("Scheduler.pop_next_job", replace_once("            if state == StepState.RUNNING:\n", "            if state == StepState.CHECKING:\n")), ("R-C11-6",)),
